@@ -58,6 +58,7 @@ def gen_scenario(rng, want_index=None, want_verify=None):
         "src": src, "corrupt": corrupt, "dest": sorted(dest), "req": req, "shallow": shallow, "fail": fail,
         "verify": verify, "index": index, "pre": pre, "dest_state": rng.random() < 0.4,
         "src_local": rng.random() < 0.5, "dest_local": rng.random() < 0.5, "vanish": vanish,
+        "src_algo": "md5-dos2unix" if rng.random() < 0.2 else "md5",
     }
     return sc, uni
 
@@ -75,7 +76,9 @@ class Run:
     def __init__(self, ctx, sc, uni):
         self.sc, self.uni = sc, uni
         root = ctx.mkdtemp()
-        self.src = stores.make_odb(os.path.join(root, "src"), local=sc["src_local"])
+        # the source is sometimes a legacy (md5-dos2unix) store pushed to an md5 destination: names differ, values are shared
+        self.src_algo = sc.get("src_algo", "md5")
+        self.src = stores.make_odb(os.path.join(root, "src"), local=sc["src_local"], hash_name=self.src_algo)
         self.state = None
         cfg = {}
         if sc.get("dest_state"):
@@ -100,7 +103,7 @@ class Run:
 
         bad = set(self.sc["corrupt"])
         # keep the pre-history request closed: a directory goes only together with all of its files
-        req = {stores.hi(o) for o in pre["req"]
+        req = {stores.hi(o, self.src_algo) for o in pre["req"]
                if o not in bad and not (o.endswith(".dir") and (bad & set(self.uni.listing(o))))}
         kind, res = safe_call(lambda: transfer(self.src, self.dest, req, dest_index=self.idx, shallow=True), expected=(FileNotFoundError,))
         present = stores.listing_of(self.dest.path)
@@ -132,7 +135,7 @@ class Run:
 
         sc = self.sc
         faults = stores.Faults(self.dest, fail, on_event=self._audit, vanish=vanish)
-        req = {stores.hi(o) for o in sc["req"]}
+        req = {stores.hi(o, self.src_algo) for o in sc["req"]}
 
         def f():
             with faults.active():
